@@ -4,8 +4,48 @@
 import json
 import os
 
+import sys
+
 ROOT = os.path.dirname(os.path.dirname(os.path.abspath(__file__)))
+sys.path.insert(0, ROOT)
+from vlib import core, registry, runner  # noqa: E402
+
+# every entry is validated on the CURRENT /repo (run this tool on the unchanged tree only): the model driver accepts the script,
+# model and implementation agree through the property's view, and the property's predicate does not fail.  A minimised script of
+# a seeded change that does not meet this (over-shrunk, or shrunk to something on which the predicate does not apply) would be a
+# false alarm on every tree and is left out.
+hdir = core.build_harness("asan")
+core.lake_build(["driver"])
+
+
+def valid_on_clean_tree(prop, ops):
+    spec = registry.SPECS[prop]
+    m = core.run_driver([("c", ops)])[0]
+    if any(l == "bad-op" for l in m):
+        return False, "model driver rejects the script"
+    im, _ = core.run_harness(hdir, [("c", ops)], timeout=120)
+    im = im[0]
+    case = runner.Case("c", ops, nontrivial=True, tags=("corpus",))
+    view = spec.view or (lambda c, lines: lines)
+    if view(case, m) != view(case, im):
+        return False, "model and implementation differ on the unchanged tree"
+    if spec.predicate:
+        ctx = runner.Ctx()
+        ctx.tier, ctx.seed, ctx.spec, ctx.hdir, ctx.model, ctx.impl = "quick", 0, spec, hdir, [m], [im]
+        try:
+            pv = spec.predicate(case, im, m, ctx)
+        except Exception:  # noqa: a predicate that needs the generator's meta data does not apply to a bare script (the runner treats it so too)
+            pv = None
+        if pv is False:
+            return False, "predicate fails on the unchanged tree"
+    return True, ""
+
+
 n = 0
+skipped = []
+for pd in os.listdir(os.path.join(ROOT, "corpus")) if os.path.isdir(os.path.join(ROOT, "corpus")) else []:
+    for f in os.listdir(os.path.join(ROOT, "corpus", pd)):
+        os.remove(os.path.join(ROOT, "corpus", pd, f))
 for sid in sorted(os.listdir(os.path.join(ROOT, "seeded"))):
     d = os.path.join(ROOT, "seeded", sid)
     rp = os.path.join(d, "demo.replay")
@@ -13,6 +53,9 @@ for sid in sorted(os.listdir(os.path.join(ROOT, "seeded"))):
         continue
     prop = None
     ops = []
+    if sum(1 for line in open(rp) if line.startswith("case ")) > 1:
+        skipped.append((sid, "-", "replay of a whole multi-case workload (thread / fill-pattern runs), not a minimised script"))
+        continue
     for line in open(rp):
         line = line.rstrip("\n")
         if line.startswith("# property:"):
@@ -22,9 +65,15 @@ for sid in sorted(os.listdir(os.path.join(ROOT, "seeded"))):
         ops.append(line)
     if not prop or not ops or sum(len(o) for o in ops) > 400000:
         continue
+    ok, why = valid_on_clean_tree(prop, ops)
+    if not ok:
+        skipped.append((sid, prop, why))
+        continue
     os.makedirs(os.path.join(ROOT, "corpus", prop), exist_ok=True)
     with open(os.path.join(ROOT, "corpus", prop, sid + ".txt"), "w") as f:
         f.write("# minimised failing script of seeded change %s\n" % sid)
         f.write("\n".join(ops) + "\n")
     n += 1
-print(n, "corpus files")
+print(n, "corpus files;", len(skipped), "minimised scripts left out:")
+for x in skipped:
+    print("  ", x)
